@@ -14,7 +14,7 @@ import os
 from .common import LEAN_DIR
 from .live import lean_str, LiveError
 
-BUILTIN_CALLS = {'len', 'int', 'list', 'tuple', 'set', 'sorted', 'any', 'all', 'max', 'min', 'enumerate'}
+BUILTIN_CALLS = {'len', 'int', 'list', 'tuple', 'set', 'sorted', 'any', 'all', 'max', 'min', 'enumerate', 'dict'}
 MUTATORS = {'add', 'append', 'update'}
 BINOPS = {ast.Add: '+', ast.Sub: '-', ast.Mult: '*', ast.Div: '/', ast.Mod: '%'}
 CMPOPS = {ast.Eq: '==', ast.NotEq: '!=', ast.Lt: '<', ast.LtE: '<=', ast.Gt: '>', ast.GtE: '>=',
@@ -28,7 +28,7 @@ BCTOR = {'+': 'add', '-': 'sub', '*': 'mul', '/': 'div', '%': 'mod', 'neg': 'neg
          'isinstance:list': 'isList', 'isinstance:tuple': 'isTuple', 'isinstance:dict': 'isDict',
          'isinstance:Counter': 'isCounter', 'Counter': 'counter', 're.compile': 'reCompile', '.union': 'union',
          '.get': 'get', '.items': 'items', '.keys': 'keys', '.most_common': 'mostCommon', '.lower': 'lower',
-         '.count': 'count', 'deepcopy': 'deepcopy', 'enumerate': 'enumerate', '.strip': 'strip'}
+         '.count': 'count', 'deepcopy': 'deepcopy', 'enumerate': 'enumerate', '.strip': 'strip', 'dict': 'dict_'}
 
 # lean name -> (module, locator[, extra parameters: closure variables / attributes of self the function reads]).  A locator is a path of names through classes / functions; the special
 # head 'AGGREGATORS' reads entry <key>, component <func|finaliser> of join's aggregator table.
@@ -46,6 +46,9 @@ FUNCTIONS = [
     ('filter_process', 'dataflows.processors.filter_rows', ['process_resource']),
     ('deduper', 'dataflows.processors.deduplicate', ['deduper']),
     ('unpivot_rows', 'dataflows.processors.unpivot', ['unpivot_rows']),
+    ('delete_process', 'dataflows.processors.delete_fields', ['process_resource']),
+    ('select_process', 'dataflows.processors.select_fields', ['process_resource']),
+    ('rename_process', 'dataflows.processors.rename_fields', ['process_resource']),
     ('load_limiter', 'dataflows.processors.load', ['load', 'limiter'], ['self.limit_rows']),
     ('load_stripper', 'dataflows.processors.load', ['load', 'stripper']),
     # the row-phase dispatch loops of the selector-taking processors ('@for:k' = the k-th `for` statement of the body)
